@@ -228,6 +228,31 @@ pub fn structural_scan(env: &Env, res: &CfResult) -> Result<(Value, Vec<CViol>),
         let src = expand_crate(env, ws, name, false)?;
         scan_source(&src, &mut stats, &mut seen, &flags)?;
     }
+    // the run-time corpus (every catalogue + random declaration) is scanned too: emit it (no build
+    // needed — expansion only) and dump the shards in parallel
+    let rt_decls = crate::corpus::rt_decls(env, "quick");
+    let rt_dir = env.work.join("gen/rt");
+    let names = crate::corpus::emit_rt(env, &rt_dir, "rtcorpus", &rt_decls, &BTreeSet::new(), crate::corpus::SHARDS);
+    let rt_flags = |unit: &str| -> Option<bool> { rt_decls.iter().find(|d| d.id == unit).map(|d| d.new_unchecked) };
+    let sources: Vec<Result<String, String>> = std::thread::scope(|sc| {
+        let hs: Vec<_> = names
+            .chunks(4)
+            .map(|chunk| {
+                let rt_dir = rt_dir.clone();
+                sc.spawn(move || chunk.iter().map(|n| expand_crate(env, &rt_dir, n, true)).collect::<Vec<_>>())
+            })
+            .collect();
+        hs.into_iter().flat_map(|h| h.join().unwrap()).collect()
+    });
+    let before = stats.distinct_modules;
+    for src in sources {
+        // a shard that does not expand (a unit rejected by the macro) is C08's subject; skip it here
+        if let Ok(src) = src {
+            scan_source(&src, &mut stats, &mut seen, &rt_flags)?;
+        }
+    }
+    let rt_modules = stats.distinct_modules - before;
+
     let mut viols = vec![];
     let mut kinds = BTreeSet::new();
     for (kind, ty, detail) in &stats.problems {
@@ -259,6 +284,7 @@ pub fn structural_scan(env: &Env, res: &CfResult) -> Result<(Value, Vec<CViol>),
             "functions_scanned": stats.functions,
             "construction_sites": stats.constructions,
             "problems": stats.problems.len(),
+            "distinct_expansions_from_runtime_corpus": rt_modules,
         }
     });
     if stats.distinct_modules == 0 {
